@@ -226,6 +226,14 @@ def power_arrays(P, k0):
                 shp = 'zero'
             arr[k] = _cell_coeffs(rng, cnt[c], order, mean, shp)
         out[names[c]] = arr
+    # optional relabelling (used by the symmetry checks): element i of the
+    # generated map is moved to index perm[i]
+    for name, perm in (spec.get('perm') or {}).items():
+        if name in out:
+            p = np.asarray(perm, dtype=int)
+            moved = np.zeros_like(out[name])
+            moved[:, p, :] = out[name]
+            out[name] = moved
     return out, zb
 
 
